@@ -47,7 +47,7 @@ func init() {
 // ---------------------------------------------------------------------------------------------- job protocol
 
 type ifQuery struct {
-	Kind   string // opts | arp | loc | def | gw
+	Kind   string // opts | optsf (= opts with --file AND the positional target) | arp | loc | def | gw
 	Iface  string // "-" = no --iface
 	SrcIP  string // hex of the net.IP handed to the option code (4 or 16 bytes), "-" = none
 	SrcMAC string // hex of the hardware address, "-" = none
@@ -191,12 +191,17 @@ func ifaceAnswerOne(q ifQuery, job *ifJob, cacheFile string) (parsed, observed s
 		rawMAC = macText(hx.UnHex(q.SrcMAC))
 	}
 	switch q.Kind {
-	case "opts":
+	case "opts", "optsf":
 		// icmp / tcp / udp: parseRawOptions + ipScanCmdOpts.parseOptions
 		var args []string
 		ipFile := "targets.jsonl"
 		if q.Target != "-" {
 			args, ipFile = []string{q.Target}, ""
+			if q.Kind == "optsf" {
+				// `-f targets.jsonl <subnet>`: the targets come from the file, the positional subnet still is
+				// what selects the directly attached interface and its address on that subnet
+				ipFile = "targets.jsonl"
+			}
 		}
 		var res *command.VerifIfaceResult
 		var err error
@@ -789,10 +794,17 @@ func genQueries(rng *rand.Rand, h *gHost, n int, withBinary int) []ifQuery {
 	}
 	for _, t := range dedup(tl) {
 		qs = append(qs, ifQuery{Kind: "opts", Iface: "-", SrcIP: "-", SrcMAC: "-", Target: t})
+		if t != "-" {
+			qs = append(qs, ifQuery{Kind: "optsf", Iface: "-", SrcIP: "-", SrcMAC: "-", Target: t})
+		}
 	}
 	for i := 0; i < n; i++ {
-		qs = append(qs, ifQuery{Kind: "opts", Iface: pickIface(), SrcIP: srcips[rng.Intn(len(srcips))],
-			SrcMAC: srcmacs[rng.Intn(len(srcmacs))], Target: targets[rng.Intn(len(targets))]})
+		q := ifQuery{Kind: "opts", Iface: pickIface(), SrcIP: srcips[rng.Intn(len(srcips))],
+			SrcMAC: srcmacs[rng.Intn(len(srcmacs))], Target: targets[rng.Intn(len(targets))]}
+		if q.Target != "-" && rng.Intn(4) == 0 {
+			q.Kind = "optsf"
+		}
+		qs = append(qs, q)
 	}
 	// --iface with a target that lies on the network of one of its later addresses (and of none, for contrast)
 	for _, it := range h.ifaces {
@@ -919,6 +931,9 @@ func fixedQueries(h *gHost) []ifQuery {
 				qs = append(qs, ifQuery{Kind: "opts", Iface: nm, SrcIP: s, SrcMAC: "-", Target: t})
 			}
 			qs = append(qs, ifQuery{Kind: "opts", Iface: nm, SrcIP: "-", SrcMAC: "02aabbccddee", Target: t})
+			if t != "-" {
+				qs = append(qs, ifQuery{Kind: "optsf", Iface: nm, SrcIP: "-", SrcMAC: "-", Target: t})
+			}
 		}
 	}
 	for _, nm := range []string{"-", "tn0", "ve0", "br1"} {
